@@ -217,6 +217,45 @@ def sortMessages (msgs prev : List Msg) : List Msg :=
   let order := firstFiles prev
   sortBy (fun m => ((fileOrder order m.file : Nat) : Int)) msgs
 
+/-! ## `FineGrainedBuildManager.update`, for any build-manager state -/
+
+/-- the build manager as `FineGrainedBuildManager.update` uses it: the propagation operations plus
+    `update_module`'s own work and `errors.targets()` -/
+structure USys (σ : Type) extends Sys σ where
+  /-- `update_module` up to and including `calculate_active_triggers`: `errors.reset()`, re-parse, analyse and
+      check the whole module (or delete it); returns the new state and the active triggers -/
+  processModule : σ → Mod → σ × List Name
+  /-- `manager.errors.targets()` -/
+  errTargets : σ → List Target
+
+structure UpdStG (σ : Type) where
+  st : σ
+  /-- `previous_targets_with_errors` -/
+  prevErr : List Target
+
+/-- the `while True: update_one(...)` loop over the (duplicate-free) changed modules — each is processed by
+    `update_module`, followed by `propagate_changes_using_dependencies(triggered, {module}, ∅)` and
+    `previous_targets_with_errors.update(errors.targets())`; no newly discovered modules, no blocking error.
+    `none` = MAX_ITER was hit -/
+def updateLoopG {σ : Type} (S : USys σ) : List Mod → UpdStG σ → Option Mod → Option (UpdStG σ × Option Mod)
+  | [], u, last => some (u, last)
+  | m :: rest, u, _ =>
+    match propagate S.toSys MAX_ITER (S.processModule u.st m).1 (S.processModule u.st m).2 [m] [] [] with
+    | .maxIter _ => none
+    | .done s _ => updateLoopG S rest { st := s, prevErr := u.prevErr ++ S.errTargets s } (some m)
+
+/-- `FineGrainedBuildManager.update(changed_modules, removed_modules)`: the loop, then
+    `propagate_changes_using_dependencies(∅, {next_id}, previous_targets_with_errors)` and
+    `previous_targets_with_errors = errors.targets()` -/
+def updateG {σ : Type} (S : USys σ) (u : UpdStG σ) (changed : List Mod) : Option (UpdStG σ) :=
+  if changed.isEmpty then some u
+  else match updateLoopG S changed u none with
+    | none => none
+    | some (u1, last) =>
+      match propagate S.toSys MAX_ITER u1.st [] last.toList u1.prevErr [] with
+      | .maxIter _ => none
+      | .done s _ => some { st := s, prevErr := S.errTargets s }
+
 /-! ## The semantic instance: snapshots, a per-target checker, recorded inputs, `update`
 
 A *unit* is a target that is processed as a whole (module top level, function, method).  Symbol snapshots
@@ -316,6 +355,12 @@ def update (W : World) (u : UpdSt) (changed : List Mod) : Option UpdSt :=
       match propagate (semSys W) MAX_ITER u1.st [] last.toList u1.prevErr [] with
       | .maxIter _ => none
       | .done s _ => some { st := s, prevErr := errTargets W s }
+
+/-- the semantic instance of the whole `update` interface; `updateG (semUSys W)` is `update W`
+    (`update_eq`, Proofs/FineGrainedSem) -/
+def semUSys (W : World) : USys SemSt := { semSys W with processModule := processModule W, errTargets := errTargets W }
+
+def UpdSt.toG (u : UpdSt) : UpdStG SemSt := ⟨u.st, u.prevErr⟩
 
 /-- `manager.errors.new_messages()`: the messages of all targets, target by target -/
 def newMessages (W : World) (s : SemSt) : List Msg := W.units.flatMap s.emap
